@@ -2,15 +2,23 @@ package c21
 
 import (
 	"context"
+	"fmt"
 	"strings"
 	"testing"
 	"time"
+
+	signaling "github.com/aperturerobotics/bifrost/signaling/rpc"
 
 	"verifh/evid"
 	"verifh/mc"
 	"verifh/sigh"
 	"verifh/vsync"
 )
+
+func scanf(s, format string, a ...any) bool {
+	n, err := fmt.Sscanf(s, format, a...)
+	return err == nil && n == len(a)
+}
 
 type scen struct {
 	name  string
@@ -153,6 +161,96 @@ func TestC21(t *testing.T) {
 				return ""
 			}}
 	}, func(v *vsync.Violation) string { return strings.Fields(v.What)[0] })
+
+	// S2, receiving side: the real client receives from the partner (reference
+	// relay, scripted). The relay delivers "old" (message seqno 1) in epoch 2;
+	// the session is re-opened WITHOUT a Closed (the partner's stream was
+	// replaced by a new stream of the same peer) and the partner's new
+	// incarnation sends "new", again message seqno 1, in epoch 4. The
+	// application calls Recv twice at arbitrary points. Whenever the relay gets
+	// an ack (epoch e, seqno n) that matches a message it forwarded in epoch e,
+	// the partner's Send of that message reports success: the application must
+	// have been handed exactly that message before.
+	mc.RunScenarios(t, agg, 1, func(i int) *vsync.Config {
+		return &vsync.Config{Name: "client-s2/receiver-reopened-without-close", Bound: bound + 1, Delay: true, Deadline: run.Deadline(), MaxStep: 20000, Horizon: 2 * time.Minute,
+			Body: func() {
+				s := sigh.NewS2(0, 0)
+				old := s.PartnerMsg("old", 1, "B", "B", false, false)
+				nw := s.PartnerMsg("new", 1, "B", "B", false, false)
+				var wg vsync.WaitGroup
+				wg.Add(2)
+				partner := func() {
+					defer wg.Done()
+					vsync.Yield("re-open")
+					d := s.Relay.Cur()
+					vsync.LogOrdered("relay: opened 4")
+					_ = d.ToCli.Push(sigh.Opened(4))
+					vsync.Yield("new message")
+					vsync.LogOrdered("relay: forwarded new e=4 n=1")
+					_ = d.ToCli.Push(sigh.RecvMsg(nw))
+				}
+				s.Relay.Script = func(r *sigh.RefRelay, req *signaling.SessionRequest) []*signaling.SessionResponse {
+					switch b := req.GetBody().(type) {
+					case *signaling.SessionRequest_Init:
+						// the relay's responses leave in order: the partner's later
+						// actions start only once both are on the wire
+						vsync.LogOrdered("relay: forwarded old e=2 n=1")
+						_ = r.Cur().ToCli.Push(sigh.Opened(2))
+						_ = r.Cur().ToCli.Push(sigh.RecvMsg(old))
+						vsync.GoNamed("partner", partner)
+					case *signaling.SessionRequest_AckMsg:
+						vsync.LogOrdered("relay: ack e=%d n=%d", req.GetSessionSeqno(), b.AckMsg)
+					}
+					return nil
+				}
+				vsync.GoNamed("appA", func() {
+					defer wg.Done()
+					for i := 0; i < 2; i++ {
+						m, err := s.Ref.Recv(s.Ctx)
+						if err != nil {
+							return
+						}
+						vsync.LogOrdered("app-got %s", string(m.GetSignedMsg().GetData()))
+					}
+				})
+				vsync.Quiesce()
+				time.Sleep(30 * time.Second)
+				vsync.Quiesce()
+				s.Shutdown()
+				wg.Wait()
+			},
+			Check: func(x *vsync.Exec) string {
+				if x.HorizonHit {
+					return ""
+				}
+				fwd := map[string]string{} // "e n" -> message id forwarded in epoch e with seqno n
+				got := map[string]bool{}
+				for _, l := range x.Log {
+					var e, n uint64
+					var id string
+					switch {
+					case strings.HasPrefix(l, "app-got "):
+						got[strings.TrimPrefix(l, "app-got ")] = true
+					case scanf(l, "relay: forwarded %s e=%d n=%d", &id, &e, &n):
+						fwd[fmt.Sprint(e, " ", n)] = id
+					case scanf(l, "relay: ack e=%d n=%d", &e, &n):
+						if id, ok := fwd[fmt.Sprint(e, " ", n)]; ok && !got[id] {
+							return fmt.Sprintf("V21:send-acknowledged-before-delivery receiver acked epoch %d seqno %d (message %q) but its application was not handed %q", e, n, id, id)
+						}
+					}
+				}
+				return ""
+			},
+			Observe: func(x *vsync.Exec) []string {
+				var tags []string
+				for _, l := range x.Log {
+					if strings.HasPrefix(l, "app-got ") || strings.HasPrefix(l, "relay: ack ") {
+						tags = append(tags, "receiver: "+l)
+					}
+				}
+				return tags
+			}}
+	}, func(v *vsync.Violation) string { return strings.Fields(v.What)[0] + "/receiver" })
 
 	// S1: acks and clears for messages that were never received, and for the right message
 	s1 := []sigh.Scen{
